@@ -10,6 +10,7 @@ package dnsserver
 
 import (
 	"context"
+	"net"
 
 	"github.com/facebookincubator/dns/dnsrocks/dnsdata"
 	"github.com/facebookincubator/dns/dnsrocks/zzverif/nd"
@@ -18,7 +19,7 @@ import (
 
 //verif:include ../dnsdata/rdb/zz_verif_model.go
 //verif:include ../db/zz_verif_world.go
-//verif:harness H04_diff2 property=C04 native=no quick=layout=2,fa=1,fb=0,text=0;layout=0,fa=1,fb=0,text=0;layout=2,fa=1,fb=0,text=1 thorough=layout=1,fa=1,fb=0,text=0;layout=2,fa=1,fb=1,text=0;layout=2,fa=2,fb=0,text=0;layout=0,fa=1,fb=0,text=1;layout=1,fa=2,fb=0,text=1
+//verif:harness H04_diff2 property=C04 native=no quick=layout=2,fa=1,fb=0,text=0,ecs=0;layout=0,fa=1,fb=0,text=0,ecs=0;layout=2,fa=1,fb=0,text=1,ecs=0;layout=2,fa=1,fb=0,text=0,ecs=1 thorough=layout=0,fa=1,fb=0,text=0,ecs=1;layout=1,fa=1,fb=0,text=0,ecs=0;layout=2,fa=1,fb=1,text=0,ecs=0;layout=2,fa=2,fb=0,text=0,ecs=0;layout=0,fa=1,fb=0,text=1,ecs=0;layout=1,fa=2,fb=0,text=1,ecs=0;layout=1,fa=1,fb=0,text=0,ecs=1
 
 var verifForeignNames = []string{"z", "c.z", "d.z", "g.c.z", "l.z", "p.z", "q.z", "a.c.z", "0.z"}
 
@@ -49,7 +50,12 @@ func verifForeign(n int, x []byte) []dnsdata.VerifRec {
 	}
 	if n > 0 {
 		// a subnet of a map that no queried name uses, covering the client's address
-		out = append(out, dnsdata.VerifRec{Kind: '%', Lmap: [2]byte{0, 'f'}, IP: v4in6(10, 0, 0, 0), Ones: 104, Loc: x})
+		// (a named map, or the unnamed map that a subnet line without a map name feeds)
+		fmap := [2]byte{0, 'f'}
+		if nd.Param("ecs") == 1 {
+			fmap = [2]byte{0, 0}
+		}
+		out = append(out, dnsdata.VerifRec{Kind: '%', Lmap: fmap, IP: v4in6(10, 0, 0, 0), Ones: 104, Loc: x})
 	}
 	return out
 }
@@ -69,8 +75,21 @@ func H04_diff2() {
 	}
 	nd.Assume(nd.Or(x[0] != clientLoc[0], x[1] != clientLoc[1]))
 	nd.Assume(nd.Or(x[0] != 0, x[1] != 0))
-	recsA := append(verifZoneWorld(), verifForeign(nd.Param("fa"), x)...)
-	recsB := append(verifZoneWorld(), verifForeign(nd.Param("fb"), x)...)
+	world := verifZoneWorld()
+	withECS := nd.Param("ecs") == 1
+	if withECS {
+		// names below z lose their client-subnet map (only z itself keeps one): a client-subnet
+		// option must then be ignored for them, whatever subnets other maps declare
+		var w []dnsdata.VerifRec
+		for _, r := range world {
+			if !(r.Kind == '8' && r.Wild) {
+				w = append(w, r)
+			}
+		}
+		world = w
+	}
+	recsA := append(append([]dnsdata.VerifRec{}, world...), verifForeign(nd.Param("fa"), x)...)
+	recsB := append(append([]dnsdata.VerifRec{}, world...), verifForeign(nd.Param("fb"), x)...)
 	a := verifRecordsHandler(recsA, layout, CacheConfig{})
 	b := verifRecordsHandler(recsB, layout, CacheConfig{})
 
@@ -79,10 +98,20 @@ func H04_diff2() {
 	qtypes := []uint16{dns.TypeA, dns.TypeTXT, dns.TypeNS, dns.TypeSOA, dns.TypeDS}
 	qtype := qtypes[nd.Choice(len(qtypes))]
 	var resps [2]*dns.Msg
+	var ecsTail []byte
+	if withECS {
+		ecsTail = nd.Bytes(3)
+	}
 	for i, env := range []*verifEnv{a, b} {
 		q := new(dns.Msg)
 		q.Id = 77
 		q.Question = []dns.Question{{Name: name, Qtype: qtype, Qclass: dns.ClassINET}}
+		if withECS {
+			// a client-subnet option inside the foreign subnet 10/8 (three solver-chosen bytes)
+			o := &dns.OPT{Hdr: dns.RR_Header{Name: ".", Rrtype: dns.TypeOPT, Class: 1232}}
+			o.Option = append(o.Option, &dns.EDNS0_SUBNET{Code: dns.EDNS0SUBNET, Family: 1, SourceNetmask: 32, Address: net.IPv4(10, ecsTail[0], ecsTail[1], ecsTail[2])})
+			q.Extra = append(q.Extra, o)
+		}
 		w := &verifWriter{remote: verifClientIPs[k]}
 		_, _ = env.h.ServeDNSWithRCODE(context.Background(), w, q)
 		nd.Assert(len(w.written) == 1, "one-reply")
